@@ -343,6 +343,9 @@ func genCase(r *rng.R, malformed bool) Input {
 	case "layerconf":
 		if n > 0 {
 			in.LayerConf = B(spell(r, chain[0].path))
+			if r.Chance(1, 8) { // relative to the working directory
+				in.LayerConf = B("../" + strings.TrimPrefix(chain[0].path, T+"/"))
+			}
 		} else {
 			in.LayerConf = B(r.Pick([]string{T + "/conf/nosuch.conf", T + "/conf"}))
 		}
@@ -360,7 +363,7 @@ func genCase(r *rng.R, malformed bool) Input {
 			decoy(T + "/usr/etc/layercake.conf")
 		}
 		if r.Chance(1, 8) {
-			in.Home = B(T + "/home/")
+			in.Home = B(r.Pick([]string{T + "/home/", "../home", T + "/cwd/../home"}))
 		}
 	case "exe":
 		switch r.Intn(4) {
@@ -399,7 +402,7 @@ func genCase(r *rng.R, malformed bool) Input {
 	for _, d := range dirs {
 		in.Files = append(in.Files, FileSpec{Path: B(d), Dir: true})
 	}
-	in.Bin = r.Chance(1, 8)
+	in.Bin = r.Chance(1, 5)
 	in.Note = fmt.Sprintf("chain=%d head=%s end=%s", n, head, end)
 	return in
 }
@@ -588,10 +591,16 @@ func Run(in Input) (c *common.Case) {
 
 	// ---- the binary
 	binTerm := q.None()
+	binRun := false
 	if in.Bin {
 		if bt, bd := runBinary(argv0, cwd, swConf, swBase, envv); bt != "" {
 			binTerm = q.Some(bt)
-			desc["binary"] = bd
+			binRun = true
+			if m, ok := desc["obs"].(map[string]interface{}); ok {
+				m["binary"] = bd
+			} else {
+				desc["binary"] = bd
+			}
 		}
 	}
 
@@ -605,7 +614,7 @@ func Run(in Input) (c *common.Case) {
 	}
 	envTerm := q.App("MkEnv", q.Hx(swConf), q.Hx(swBase), q.Hx(envv["LAYERROOT"]), q.Hx(envv["LAYERCONF"]), q.Hx(envv["HOME"]),
 		q.Hx(argv0), q.Hx(cwd), q.List(fsTerms))
-	c.Coq = q.App("C18.MkCase", envTerm, obsTerm, binTerm)
+	c.Coq = q.App("C18.MkCase", envTerm, q.Bool(binRun), q.App("C18.MkObs", obsTerm, binTerm))
 
 	// ---- bookkeeping
 	raw, _ := json.Marshal(in)
@@ -621,7 +630,10 @@ func Run(in Input) (c *common.Case) {
 			}
 		}
 	}
-	classes := strings.Fields(in.Note)
+	classes := []string{}
+	if strings.HasPrefix(in.Note, "chain=") {
+		classes = strings.Fields(in.Note)
+	}
 	if len(in.SwBase) > 0 {
 		classes = append(classes, "sw-basepath")
 	}
